@@ -40,6 +40,8 @@ PROPS["C02"] = dict(
         "Zrnt.Proofs.C02.flat_snapshot_sound_slashings",
         "Zrnt.Proofs.C02.slashings_snapshot_eq",
         "Zrnt.Proofs.C02.rewards_phase0_eq",
+        "Zrnt.Proofs.C02.processEpoch_eq",
+        "Zrnt.Proofs.C02.processSlots_eq_partial",
         "Zrnt.Proofs.C02.attestationDeltas_phase0_eq",
         "Zrnt.Proofs.C02.targetStakes_phase0_eq",
         "Zrnt.Proofs.C02.effectiveBalance_snapshot_eq",
